@@ -46,6 +46,16 @@ CLAIMS = {
         "1972-01, 64.184 s in 2000, 69.184 s in 2017); Fix.tla; float->Fix conversion.",
    technique="TLA+ IERS step function model-checked by TLC + trace validation with exact fixed-point offsets",
    ref="5/C10"),
+ "C04": dict(
+   text="The print law (no 60 in minutes/seconds, sign once on the leading non-zero field, read-back within half a unit of "
+        "the last decimal modulo 360/24, canonical tuple recombining to 1e-9 degree) is a TLA+ predicate over the printed "
+        "fields; TLC model-checks an integer carry model of dms_str against it on all carry windows and then judges, in exact "
+        "fixed point, every string and tuple the real Angle produces for the same grid and for seeded boundary-focused "
+        "values (1e-12 / 1-3 ulp / half-unit neighbours of whole seconds, minutes, degrees, hours, 0, +-360, denormals).",
+   note="Trusted: TLC, Fix.tla, the ~30-line regex tokeniser that splits the printed string into its numeric fields as text "
+        "(decimal text -> exact rational), float->Fix conversion.",
+   technique="TLA+ print-law predicate; carry model model-checked by TLC; trace validation of real strings/tuples",
+   ref="5/C04"),
 }
 
 PENDING_REASON = "check not built yet in this round (specification module planned in DESIGN.md section 5); not claimed until its trace specification validates the unchanged tree"
